@@ -43,7 +43,17 @@ def exd(data_offset, variant, columns, rows):
     bodies = []
     for rid, subs in rows:
         if variant == 2:
-            body = b"".join(struct.pack(">H", k) + record(data_offset, columns, rec)[0] for k, rec in enumerate(subs))
+            # strings of sub-rows (layout as the library reads it - undocumented): one heap behind the last sub-row; a
+            # string offset counts from the end of its own sub-row's fixed-size region
+            total = len(subs) * (data_offset + 2)
+            heap = b""
+            body = b""
+            for k, rec in enumerate(subs):
+                base = k * (data_offset + 2) + 2 + data_offset
+                f, h = record(data_offset, columns, rec, heap0=total + len(heap) - base)
+                heap += h
+                body += struct.pack(">H", k) + f
+            body += heap
             bodies.append(struct.pack(">IH", len(body), len(subs)) + body)
         else:
             f, h = record(data_offset, columns, subs[0])
